@@ -15,6 +15,11 @@ CLAIMED = {
                      "target lists use the same mapping. About 1400 obligations, tables unrolled exactly from the AST.",
                 note="Trusted: z3/cvc5, the VC generator, str.lower uninterpreted+idempotent with ground instances at literals; the documented table is "
                      "transcribed by hand from docs/en/perception/label.md; documentation rows naming non-existent members decide nothing.", ref="5/C14"),
+    "C17": dict(text="get_now_frame and get_interpolated_now_frame are verified for all time-ordered frame lists, query times and tolerances "
+                     "(argmin loop invariant; four-way neighbour outcome taken from the statement); interpolate_list is proved to be the exact "
+                     "linear interpolation, with the on-segment and exact-at-the-ends clauses as real-arithmetic lemmas.",
+                note="interpolate_ground_truth_frames is cut at an *assumed* contract (stamped with the query time, built from the two frames passed); the per-object "
+                     "pose clauses (slerp shortest arc, objects present in one neighbour kept) are not decided in this build. Floats as reals.", ref="5/C17"),
 }
 NA_REASON = "check not built yet in this session (planned in DESIGN.md section 5); not claimed"
 ALL = [f"C{n:02d}" for n in range(1, 21)]
